@@ -14,7 +14,7 @@ def PyVal.encodable : PyVal → Prop
   | .bigInteger v => pyBigLen v < 256 ^ 4
   | .enumeration v => 0 ≤ v ∧ v < 4294967296
   | .boolean _ => True
-  | .textString cps => (∀ c ∈ cps, c < 128) ∧ cps.length < 256 ^ 4
+  | .textString s => validUtf8 s = true ∧ s.length < 256 ^ 4
   | .byteString s => s.length < 256 ^ 4
   | .dateTime v => fitsTC 8 v
   | .interval v => 0 ≤ v ∧ v < 4294967296
@@ -27,47 +27,9 @@ theorem fitsTC8_iff (v : Int) : fitsTC 8 v ↔ -9223372036854775808 ≤ v ∧ v 
 
 /-! ### text -/
 
-theorem packText_ok (cps : List Nat) (h : ∀ c ∈ cps, c < 128) : packText cps = .ok (cps.map UInt8.ofNat) := by
-  induction cps with
-  | nil => rfl
-  | cons c cs ih =>
-    have hc : c < 128 := h c (by simp)
-    have := ih (fun x hx => h x (by simp [hx]))
-    simp [packText, hc, this, Except.map]
+theorem packText_ok (s : Bytes) (h : validUtf8 s = true) : packText s = .ok s := by simp [packText, h]
 
-theorem packText_err (cps : List Nat) (h : ∃ c ∈ cps, 128 ≤ c) : packText cps = .error .nonAscii := by
-  induction cps with
-  | nil => obtain ⟨c, hc, _⟩ := h; cases hc
-  | cons c cs ih =>
-    by_cases hc : c < 128
-    · obtain ⟨x, hx, hx2⟩ := h
-      have : ∃ c ∈ cs, 128 ≤ c := by
-        simp only [List.mem_cons] at hx
-        rcases hx with rfl | hx
-        · omega
-        · exact ⟨x, hx, hx2⟩
-      simp [packText, hc, ih this, Except.map]
-    · simp [packText, hc]
-
-theorem map_toNat_ofNat (cps : List Nat) (h : ∀ c ∈ cps, c < 128) :
-    (cps.map UInt8.ofNat).map UInt8.toNat = cps := by
-  induction cps with
-  | nil => rfl
-  | cons c cs ih =>
-    have hc : c < 128 := h c (by simp)
-    simp only [List.map_cons, List.cons.injEq]
-    refine ⟨?_, ih (fun x hx => h x (by simp [hx]))⟩
-    rw [UInt8.toNat_ofNat']; omega
-
-theorem all_ascii (cps : List Nat) (h : ∀ c ∈ cps, c < 128) :
-    (cps.map UInt8.ofNat).all (fun b => decide (b.toNat < 128)) = true := by
-  induction cps with
-  | nil => rfl
-  | cons c cs ih =>
-    have hc : c < 128 := h c (by simp)
-    simp only [List.map_cons, List.all_cons, Bool.and_eq_true, decide_eq_true_eq]
-    refine ⟨?_, ih (fun x hx => h x (by simp [hx]))⟩
-    rw [UInt8.toNat_ofNat']; omega
+theorem packText_err (s : Bytes) (h : ¬ validUtf8 s = true) : packText s = .error .notUtf8 := by simp [packText, h]
 
 /-! ### header -/
 
@@ -114,96 +76,61 @@ theorem bitlen_mono_succ (m : Nat) : bitlen m ≤ bitlen (m + 1) ∧ bitlen (m +
     have := lt_two_pow_bitlen m
     rw [Nat.pow_succ]; omega
 
-/-- the magnitude the specification's length is computed from -/
-theorem bigLen_nonneg (v : Int) (h : 0 ≤ v) : bigLen v = pyBigLen v := by
-  unfold bigLen pyBigLen
-  rw [if_pos h]
-  have : v.toNat = v.natAbs := by omega
-  rw [this]
-
-theorem bigLen_neg (v : Int) (h : v < 0) : bigLen v = 8 * (bitlen (v.natAbs - 1) / 64 + 1) := by
-  unfold bigLen
-  rw [if_neg (by omega)]
-  have : (-v - 1).toNat = v.natAbs - 1 := by omega
-  rw [this]
-
-/-- Python's width is the minimal one, except for `v = -2^(64k-1)` where it is one 8-byte group longer -/
-theorem pyBigLen_cases (v : Int) :
-    pyBigLen v = bigLen v ∨ (∃ k : Nat, 0 < k ∧ v = -((2 ^ (64 * k - 1) : Nat) : Int) ∧ pyBigLen v = bigLen v + 8) := by
+/-- **the Python width is the specification's minimal width** -/
+theorem pyBigLen_eq_bigLen (v : Int) : pyBigLen v = bigLen v := by
+  unfold pyBigLen bigLen
   by_cases h : 0 ≤ v
-  · exact Or.inl (bigLen_nonneg v h).symm
-  · have hneg : v < 0 := by omega
-    rw [bigLen_neg v hneg]
-    unfold pyBigLen
-    have hm : v.natAbs = (v.natAbs - 1) + 1 := by omega
-    generalize hmm : v.natAbs - 1 = m at *
-    rw [hm]
-    obtain ⟨h1, h2⟩ := bitlen_mono_succ m
-    by_cases heq : bitlen (m + 1) / 64 = bitlen m / 64
-    · left; rw [heq]
-    · right
-      have hb : bitlen (m + 1) = bitlen m + 1 := by
-        rcases Nat.lt_or_ge (bitlen m) (bitlen (m + 1)) with hlt | hge
-        · omega
-        · have : bitlen (m + 1) = bitlen m := by omega
-          rw [this] at heq; exact absurd rfl heq
-      have hk : (bitlen m + 1) % 64 = 0 := by rw [hb] at heq; omega
-      refine ⟨(bitlen m + 1) / 64, by omega, ?_, ?_⟩
-      · have he : 64 * ((bitlen m + 1) / 64) - 1 = bitlen m := by omega
-        rw [he]
-        have hlo : 2 ^ (bitlen (m + 1) - 1) ≤ m + 1 := two_pow_le_of_bitlen (m + 1) (by omega)
-        rw [hb, Nat.add_sub_cancel] at hlo
-        have hhi := lt_two_pow_bitlen m
-        have : m + 1 = 2 ^ bitlen m := by omega
-        rw [← this]
-        omega
-      · rw [hb]; omega
-
-/-- conversely, at every `v = -2^(64k-1)` the extra group is there -/
-theorem pyBigLen_at_pow (k : Nat) (hk : 0 < k) :
-    pyBigLen (-((2 ^ (64 * k - 1) : Nat) : Int)) = bigLen (-((2 ^ (64 * k - 1) : Nat) : Int)) + 8 := by
-  have hpos : 0 < 2 ^ (64 * k - 1) := Nat.pow_pos (by decide)
-  have hneg : -((2 ^ (64 * k - 1) : Nat) : Int) < 0 := by omega
-  rw [bigLen_neg _ hneg]
-  unfold pyBigLen
-  have hna : (-((2 ^ (64 * k - 1) : Nat) : Int)).natAbs = 2 ^ (64 * k - 1) := by omega
-  rw [hna]
-  have h1 : bitlen (2 ^ (64 * k - 1)) = 64 * k - 1 + 1 :=
-    bitlen_eq _ _ (Nat.le_refl _) (by rw [Nat.pow_succ]; omega)
-  have h2 : bitlen (2 ^ (64 * k - 1) - 1) ≤ 64 * k - 1 := bitlen_le_of_lt_pow _ _ (by omega)
-  have h3 : 64 * k - 1 ≤ bitlen (2 ^ (64 * k - 1) - 1) := by
-    have := lt_two_pow_bitlen (2 ^ (64 * k - 1) - 1)
-    by_cases hc : 64 * k - 1 ≤ bitlen (2 ^ (64 * k - 1) - 1)
-    · exact hc
-    · have hlt : bitlen (2 ^ (64 * k - 1) - 1) + 1 ≤ 64 * k - 1 := by omega
-      have := Nat.pow_le_pow_right (by decide : 0 < 2) hlt
-      rw [Nat.pow_succ] at this
-      omega
-  rw [h1]; omega
+  · rw [if_pos h, if_pos h]
+    have : v.toNat = v.natAbs := by omega
+    rw [this]
+  · rw [if_neg h, if_neg h]
+    have : (-v - 1).toNat = v.natAbs - 1 := by omega
+    rw [this]
 
 /-- `v` fits in `pyBigLen v` bytes (so the Python bit-string algorithm is plain two's complement) -/
 theorem fits_pyBigLen (v : Int) : fitsTC (pyBigLen v) v := by
   unfold fitsTC pyBigLen
-  have h := lt_two_pow_bitlen v.natAbs
-  have hp : 2 * 2 ^ bitlen v.natAbs ≤ 256 ^ (8 * (bitlen v.natAbs / 64 + 1)) := by
-    rw [pow256_eq, ← Nat.pow_succ']
-    exact Nat.pow_le_pow_right (by decide) (by omega)
-  generalize 256 ^ (8 * (bitlen v.natAbs / 64 + 1)) = P at *
-  omega
-
-/-- `v` fits in the specification's minimal length -/
-theorem fits_bigLen (v : Int) : fitsTC (bigLen v) v := by
   by_cases h : 0 ≤ v
-  · rw [bigLen_nonneg v h]; exact fits_pyBigLen v
-  · have hneg : v < 0 := by omega
-    rw [bigLen_neg v hneg]
-    unfold fitsTC
+  · rw [if_pos h]
+    have hb := lt_two_pow_bitlen v.natAbs
+    have hp : 2 * 2 ^ bitlen v.natAbs ≤ 256 ^ (8 * (bitlen v.natAbs / 64 + 1)) := by
+      rw [pow256_eq, ← Nat.pow_succ']
+      exact Nat.pow_le_pow_right (by decide) (by omega)
+    generalize 256 ^ (8 * (bitlen v.natAbs / 64 + 1)) = P at *
+    omega
+  · rw [if_neg h]
     have hb := lt_two_pow_bitlen (v.natAbs - 1)
     have hp : 2 * 2 ^ bitlen (v.natAbs - 1) ≤ 256 ^ (8 * (bitlen (v.natAbs - 1) / 64 + 1)) := by
       rw [pow256_eq, ← Nat.pow_succ']
       exact Nat.pow_le_pow_right (by decide) (by omega)
     generalize 256 ^ (8 * (bitlen (v.natAbs - 1) / 64 + 1)) = P at *
     omega
+
+/-- `v` fits in the specification's minimal length -/
+theorem fits_bigLen (v : Int) : fitsTC (bigLen v) v := by
+  rw [← pyBigLen_eq_bigLen]; exact fits_pyBigLen v
+
+/-- the minimal length really is minimal: `v` does not fit in 8 bytes less -/
+theorem bigLen_minimal (v : Int) (h : 8 < bigLen v) : ¬ fitsTC (bigLen v - 8) v := by
+  rw [← pyBigLen_eq_bigLen] at h ⊢
+  unfold pyBigLen at h ⊢
+  unfold fitsTC
+  generalize hm : (if 0 ≤ v then v.natAbs else v.natAbs - 1) = m at *
+  have hq : 0 < bitlen m / 64 := by omega
+  have hm0 : m ≠ 0 := by
+    intro h0; subst h0; unfold bitlen at hq; simp at hq
+  have hlo := two_pow_le_of_bitlen m hm0
+  have he : 8 * (bitlen m / 64 + 1) - 8 = 8 * (bitlen m / 64) := by omega
+  rw [he]
+  have hp : 256 ^ (8 * (bitlen m / 64)) ≤ 2 * 2 ^ (bitlen m - 1) := by
+    rw [pow256_eq, ← Nat.pow_succ']
+    exact Nat.pow_le_pow_right (by decide) (by omega)
+  generalize 256 ^ (8 * (bitlen m / 64)) = P at *
+  generalize 2 ^ (bitlen m - 1) = Q at *
+  intro ⟨h1, h2⟩
+  by_cases hv : 0 ≤ v
+  · rw [if_pos hv] at hm; omega
+  · rw [if_neg hv] at hm; omega
 
 /-- the bytes BigInteger.write produces are the `pyBigLen v`-byte two's complement of `v` -/
 theorem big_value_eq (v : Int) :
@@ -230,14 +157,14 @@ theorem big_value_eq (v : Int) :
 
 /-! ### the Python encoder against the specification encoder -/
 
-/-- the value as the specification reads it; a Big Integer with the length Python chose -/
+/-- the value as the specification reads it (a Big Integer with the length Python chose, which is the minimal one) -/
 def toSpec : PyVal → PVal
   | .integer v => .integer v
   | .longInteger v => .longInteger v
   | .bigInteger v => .bigInteger v (pyBigLen v)
   | .enumeration v => .enumeration v.toNat
   | .boolean b => .boolean b
-  | .textString cps => .textString (cps.map UInt8.ofNat)
+  | .textString s => .textString s
   | .byteString s => .byteString s
   | .dateTime v => .dateTime v
   | .interval v => .interval v.toNat
@@ -258,11 +185,14 @@ theorem toSpec_valid (v : PyVal) (h : v.encodable) : (toSpec v).Valid := by
     simp only [toSpec, PVal.Valid, Nat.reducePow]; omega
   | textString cps =>
     simp only [PyVal.encodable] at h
-    simp only [toSpec, PVal.Valid, List.length_map]; exact h.2
+    simp only [toSpec, PVal.Valid]; exact h.2
   | _ => simp only [toSpec, PVal.Valid, PyVal.encodable] at h ⊢ <;> exact h
 
-/-- on everything it accepts, the Python encoder produces exactly the specification encoding of the value
-(for a Big Integer: with the length Python chose, see `pyBigLen_cases`) -/
+/-- the specification reading is canonical: no redundant sign-extension group -/
+theorem toSpec_minimal (v : PyVal) : (toSpec v).minimal = true := by
+  cases v <;> simp [toSpec, PVal.minimal, pyBigLen_eq_bigLen]
+
+/-- on everything it accepts, the Python encoder produces exactly the specification encoding of the value -/
 theorem pyEncode_eq (tag : Nat) (v : PyVal) (h : v.encodable) :
     pyEncode tag v = .ok (encode (.prim tag (toSpec v))) := by
   cases v with
@@ -322,15 +252,8 @@ theorem pyEncode_err (tag : Nat) (v : PyVal) (h : ¬ v.encodable) : ∃ e, pyEnc
   | textString cps =>
     simp only [PyVal.encodable] at h
     by_cases hl : cps.length < 256 ^ 4
-    · have : ∃ c ∈ cps, 128 ≤ c := by
-        apply Classical.byContradiction
-        intro hn
-        apply h
-        refine ⟨fun c hc => ?_, hl⟩
-        apply Classical.byContradiction
-        intro hc2
-        exact hn ⟨c, hc, by omega⟩
-      exact ⟨.nonAscii, by simp [pyEncode, pyLength, pyValue, hl, packText_err cps this, Except.map]⟩
+    · have hn : ¬ validUtf8 cps = true := fun hv => h ⟨hv, hl⟩
+      exact ⟨.notUtf8, by simp [pyEncode, pyLength, pyValue, hl, packText_err cps hn, Except.map]⟩
     · exact ⟨.lengthOverflow, by simp [pyEncode, pyLength, hl]⟩
   | byteString s =>
     simp only [PyVal.encodable] at h
@@ -395,7 +318,7 @@ theorem pyDecode_encode (tag : Nat) (v : PyVal) (member : Nat → Bool) (rest : 
     simp only [PyVal.encodable] at h
     simp only [toSpec, PVal.valBytes, PyVal.typeCode]
     rw [readPadded_append]
-    simp [all_ascii cps h.1, map_toNat_ofNat cps h.1]
+    simp [h.1]
   | byteString s =>
     simp only [toSpec, PVal.valBytes, PyVal.typeCode]
     rw [readPadded_append]
